@@ -63,7 +63,7 @@ def main(tier):
             # a dict printed inside the process text follows Go's map order: compare everything but that text then
             md = re.search(r" d=(\S+)", a2)
             dtext = unhx(md.group(1)).decode("utf-8", "replace") if md and md.group(1) != "-" else ""
-            if a2 == b2 or (dtext.count("': ") >= 2 and re.sub(r" d=\S+", "", a2) == re.sub(r" d=\S+", "", b2)):
+            if a2 == b2:
                 st["agree"] += 1
                 run.nontriv(("tr", src, cfg, spec))
             else:
